@@ -1,8 +1,63 @@
 import Driver.Codec
+import LopdfModel.Model.Dates
 namespace Lopdf.Driver.C18
-open Lopdf Lopdf.Codec
+open Lopdf Lopdf.Codec Lopdf.Gen
 
-/-- protocol operations of property C18: `none` = not an operation of this property. -/
-def handle (op : String) (args : List String) : Option String := none
+def parseFields : List String → Option Fields
+  | [y, mo, d, h, mi, s, sg, oh, om] => do
+    let y ← y.toNat?; let mo ← mo.toNat?; let d ← d.toNat?; let h ← h.toNat?; let mi ← mi.toNat?; let s ← s.toNat?
+    let oh ← oh.toNat?; let om ← om.toNat?
+    let neg ← if sg = "+" then some false else if sg = "-" then some true else none
+    pure { year := y, month := mo, day := d, hour := h, minute := mi, second := s, offNeg := neg, offH := oh, offM := om }
+  | _ => none
+
+def showBytes (r : Option Bytes) : String :=
+  match r with
+  | some b => "ok " ++ hexTok b
+  | none => "none"
+
+/-- protocol operations of property C18 -/
+def handle (op : String) (args : List String) : Option String :=
+  match op with
+  | "c18.fmt" =>                      -- <producer> y mo d h mi s ± oh om  -> ok <hex>
+    some <| match args with
+    | which :: rest =>
+      match parseFields rest with
+      | some f =>
+        match which with
+        | "chrono_local" => showBytes (chronoLocalString specLib f)
+        | "chrono_utc" => showBytes (chronoUtcString specLib f)
+        | "jiff_zoned" => showBytes (jiffZonedString specLib f)
+        | "jiff_ts" => showBytes (jiffTimestampString specLib f)
+        | "time_odt" => showBytes (timeOdtString specLib f)
+        | _ => "bad-op"
+      | none => "bad-op"
+    | [] => "bad-op"
+  | "c18.strip" =>                    -- <obj> -> ok <hex> | none
+    some <| match parseObj args with
+    | some (o, []) => showBytes (asDatetime o)
+    | _ => "bad-op"
+  | "c18.conv" =>                     -- <hex> -> ok <hex>     (convert_utc_offset)
+    some <| match args with
+    | [h] => match bytesOfHex h with | some b => "ok " ++ hexTok (convertUtcOffset b) | none => "bad-op"
+    | _ => "bad-op"
+  | "c18.parse" =>                    -- <backend> <obj> -> ok <epoch> [<offset seconds>] | err
+    some <| match args with
+    | which :: rest =>
+      match parseObj rest with
+      | some (o, []) =>
+        match asDatetime o with
+        | none => "err"
+        | some s =>
+          match which with
+          | "chrono" => match chronoParse specLib s with | some f => "ok " ++ toString (epochOf f) | none => "err"
+          | "jiff" => match jiffParse specLib s with
+            | some f => "ok " ++ toString (epochOf f) ++ " " ++ toString (offsetSeconds f) | none => "err"
+          | "time" => match timeParse specLib s with
+            | some f => "ok " ++ toString (epochOf f) ++ " " ++ toString (offsetSeconds f) | none => "err"
+          | _ => "bad-op"
+      | _ => "bad-op"
+    | [] => "bad-op"
+  | _ => none
 
 end Lopdf.Driver.C18
